@@ -546,21 +546,22 @@ class DoctestParser:
                     lines (List[str]): lines of source code
                 """
                 intervals = []
-                a = len(lines) - 1
-                b = len(lines)
-                while b > 0:
-                    # move the head pointer up until we become balanced
-                    while not static.is_balanced_statement(lines[a:b], only_tokens=True) and a >= 0:
-                        a -= 1
-                    if a < 0:
+                a = 0
+                b = 1
+                while a < len(lines):
+                    # move the tail pointer down until we become balanced
+                    # (scan forwards, like the tokenizer does: the last lines
+                    # of a multi-line string may look balanced on their own)
+                    while not static.is_balanced_statement(lines[a:b], only_tokens=True) and b <= len(lines):
+                        b += 1
+                    if b > len(lines):
                         raise exceptions.IncompleteParseError(
                             'ill-formed doctest: cannot find balanced ps1 lines.')
                     # we found a balanced interval
                     intervals.append((a, b))
-                    b = a
-                    a = a - 1
+                    a = b
+                    b = b + 1
 
-                intervals = intervals[::-1]
                 return intervals
             intervals = balanced_intervals(lines)
             interval_starts = {t[0] for t in intervals}
